@@ -97,6 +97,7 @@ struct Exec {
 		T.dmin          = DMIN;
 		T.dmax          = DMAX;
 		T.static_arrays = Cfg::static_arrays;
+		T.throwing_move = ET::throwing_move;
 	}
 
 	template<class F> bool with_dim(int D, F&& f) {
@@ -234,7 +235,7 @@ struct Exec {
 							else if(v0 != m.v) {
 								std::size_t k = 0;
 								while(k < v0.size() && v0[k] == m.v[k]) ++k;
-								fail("I4-value", who + ": element " + std::to_string(k) + " is " + std::to_string(v0[k]) + " but the model has " + std::to_string(m.v[k]));
+								fail(m.v[k] == FRESH_I64 ? "P-wrote-trivial" : "I4-value", who + ": element " + std::to_string(k) + " is " + std::to_string(v0[k]) + " but the model has " + std::to_string(m.v[k]) + (m.v[k] == FRESH_I64 ? " (the bit pattern of a fresh block: the element must not have been written)" : ""));
 							}
 						}
 					}
@@ -381,6 +382,22 @@ struct Exec {
 			if(op.fn > 0) probe(P_FAULT_FIRED_LATE);
 		}
 		if(eff.probe_id >= 0) probe(eff.probe_id);
+		for(Chain const* c : {&op.ca, &op.cb})
+			for(int q = 0; q < c->n; ++q) {
+				int const sk = c->s[q].kind;
+				if(sk == S_STRIDED && c->s[q].a > 1) probe(P_VIEW_STRIDED);
+				if(sk == S_ROTATED || sk == S_UNROTATED || sk == S_TRANSPOSED || sk == S_REVERSED) probe(P_VIEW_ROTATED);
+				if(sk == S_IDX || sk == S_DIAGONAL || sk == S_PARTITIONED || sk == S_CHUNKED || sk == S_FLATTED) probe(P_VIEW_D_CHANGED);
+			}
+		if(op.kind == O_VASSIGN_VIEW && op.var == 2 && !threw && ET::tracked) probe(P_MOVED_ELEMENTS);
+		if(!ET::tracked && !threw && (op.kind == O_CTOR_EXT || op.kind == O_REEXTENT || op.kind == O_REEXTENT_MOVE) && eff.elems > 0) probe(P_TRIVIAL_UNWRITTEN_CHECKED);
+		if(op.fk == F_NONE && last_fired_kind_ == op.kind && last_fired_a_ == op.a) probe(P_RETRY_AFTER_FAULT);
+		last_fired_kind_ = fired ? op.kind : -1;
+		last_fired_a_    = op.a;
+		if(op.kind == O_ASSIGN_COPY || op.kind == O_ASSIGN_MOVE || op.kind == O_ASSIGN_VIEW) {
+			MArr const& b0 = M.at(op.da, op.a);
+			(void)b0;
+		}
 		bool const fault_ctx = fired || involved_tainted;
 
 		auto finish_violation = [&]() {
@@ -447,7 +464,7 @@ struct Exec {
 						read_array<DD>(a, 1, now, ok);
 						if(now.size() != old.v.size()) { fail("I4-extents", "a failed write through a view changed the size of its root"); return; }
 						for(std::size_t j = 0; j < now.size(); ++j) {
-							if(now[j] != old.v[j] && now[j] != eff.next[k].v[j]) {
+							if(now[j] != old.v[j] && now[j] != eff.next[k].v[j] && !(eff.moves_elements && now[j] == MOVED_FROM && j < eff.touched[k].size() && eff.touched[k][j])) {
 								fail("I4-value", "after a failed write through a view element " + std::to_string(j) + " of the root is " + std::to_string(now[j]) + ", neither its old value " + std::to_string(old.v[j]) + " nor its new value " + std::to_string(eff.next[k].v[j]));
 								return;
 							}
@@ -483,6 +500,7 @@ struct Exec {
 		W.log_obs(digest());
 	}
 
+	int last_fired_kind_ = -1, last_fired_a_ = -1;
 	std::string threw_what_;
 	bool run_real_guarded(Op const& op, bool& threw, bool& wrong) {
 		bool done = false;
